@@ -281,6 +281,7 @@ func (r *replayer) raceCase(c Case) {
 				rm.Env = "map"
 			}
 			want := RunMode(c.Src, prog, rm, e, nil)
+			image := append([]byte{}, fresh.Bytecode...)
 			gots := make([]Got, G)
 			start2 := make(chan struct{})
 			for k := 0; k < G; k++ {
@@ -296,6 +297,9 @@ func (r *replayer) raceCase(c Case) {
 			close(start2)
 			wg.Wait()
 			r.sum.Executions += 2 * G
+			if string(image) != string(fresh.Bytecode) {
+				r.fail(Failure{Why: "shared-program-modified", Src: c.Src, Mode: m.String(), Env: rc.Env})
+			}
 			for k := 0; k < G; k++ {
 				if ok, why := sameGot(gots[k], want); !ok {
 					r.fail(Failure{Why: "concurrent-run-differs-" + why, Src: c.Src, Mode: m.String(), Env: rc.Env, Got: &gots[k], Got2: &want})
@@ -312,6 +316,56 @@ func (r *replayer) raceCase(c Case) {
 
 // raceCompileEmbedded: concurrent first compilations against environment types
 // with embedded structs (the type table of an embedded struct is built per call).
+// raceSharedOptions: the same Option values (an operator mapped by two options, the
+// first built from a slice with spare capacity) given to concurrent Compile calls.
+func (r *replayer) raceSharedOptions() {
+	names := make([]string, 1, 4)
+	names[0] = "Add"
+	opts := []expr.Option{expr.Env(NewEnv(nil)), expr.Operator("+", names...), expr.Operator("+", "AddF")}
+	seq := func(src string) string {
+		p, err := expr.Compile(src, opts...)
+		if err != nil {
+			return "error: " + err.Error()
+		}
+		e := NewEnv(nil)
+		e.I, e.F = 3, 1.5
+		out, err := expr.Run(p, e)
+		return fmt.Sprintf("%v %v", out, err)
+	}
+	srcs := []string{"I + I", "F + F", "I + 1", "F + 0.5"}
+	want := make([]string, len(srcs))
+	for i, s := range srcs {
+		want[i] = seq(s)
+	}
+	var wg sync.WaitGroup
+	start := make(chan struct{})
+	got := make([]string, 24)
+	for k := range got {
+		wg.Add(1)
+		go func(k int) {
+			defer wg.Done()
+			defer func() {
+				if p := recover(); p != nil {
+					got[k] = fmt.Sprintf("panic: %v", p)
+				}
+			}()
+			<-start
+			got[k] = seq(srcs[k%len(srcs)])
+		}(k)
+	}
+	close(start)
+	wg.Wait()
+	r.sum.Executions += len(got)
+	for k := range got {
+		if got[k] != want[k%len(srcs)] {
+			r.fail(Failure{Why: "concurrent-compile-shared-options", Src: srcs[k%len(srcs)], Mode: "ptr", Got: &Got{Err: got[k]}, Tags: []string{"sequential: " + want[k%len(srcs)]}})
+		}
+	}
+	if len(names) != 1 || cap(names) != 4 || names[:2][1] != "" {
+		r.fail(Failure{Why: "caller-slice-written-by-compile", Src: "Operator(\"+\", names...)", Mode: "ptr", Tags: []string{fmt.Sprintf("%q", names[:cap(names)])}})
+	}
+}
+
 func (r *replayer) raceCompileEmbedded() {
 	envs := []interface{}{CEnv1{}, CEnv2{CBase2: &CBase2{}}, CEnv3{}, &CEnv4{}, &CEnv1{}, CEnv4{}}
 	srcs := []string{"A1 + X", "A2 + X", "A3 + A1 + X", "A4 + len(Y) + X", "A1 * 2", "X - A4"}
